@@ -334,6 +334,7 @@ def handleLine (ds : DState) (line : String) : DState × Json :=
         | "nodefilter" => some (handleNodeFilter j)
         | "resources" => some (handleResources j)
         | "validate" => some (handleValidate j)
+        | "startup" => some (handleStartup j)
         | "decode" => some (handleDecode j)
         | _ => none
       match out with
